@@ -177,7 +177,8 @@ def run(ck, ix, tier):
 
     # ------------------------------------------------------------ chain lookup and bookkeeping
     memo.rule_context_chain_graph(ck, ix)
-    memo.rule_context_overlay(ck, ix)  # conversions under a context read the units/cache installed by the switch
+    memo.rule_context_overlay(ck, ix)
+    memo.rule_overlay_not_reused(ck, ix)  # conversions under a context read the units/cache installed by the switch
     fi = ix.func(CO, "ContextChain.transform")
     ck.analysed(fi)
     r = [x for x in walk_local(fi.node) if isinstance(x, ast.Return)]
